@@ -11,7 +11,7 @@ namespace Rapid
     with the same `*T`), or ends with `invalid data` / out-of-fuel without calling `k` -/
 def Yields {α : Type} (p : (α → Prog) → Prog) (P : α → Prop) : Prop :=
   ∀ (k : α → Prog) (src : Src) (ts : TS),
-    (∃ a, P a ∧ ∃ src' used kept toks ov,
+    (∃ a, P a ∧ ∃ src' used kept toks ov, used ≠ [] ∧
         (p k).run src ts = ((k a).run src' ts).after used kept toks [] ov) ∨
     (∃ e, ((p k).run src ts).res = .error e ∧ (e.isInvalid = true ∨ e = .fuel))
 
@@ -41,6 +41,59 @@ theorem run_draw_group (l : String) (s : Bool) (n : Nat) (f : UInt64 → Val) (d
     obtain ⟨u, src'⟩ := r
     simp [Out.ofRes, Out.after]
 
+/-- weaken the postcondition -/
+theorem Yields.mono {α : Type} {p : (α → Prog) → Prog} {P Q : α → Prop} (h : Yields p P) (hpq : ∀ a, P a → Q a) :
+    Yields p Q := by
+  intro k src ts
+  rcases h k src ts with ⟨a, ha, rest⟩ | h
+  · exact Or.inl ⟨a, hpq a ha, rest⟩
+  · exact Or.inr h
+
+/-- change the type of what is handed on -/
+theorem Yields.map {α β : Type} {p : (α → Prog) → Prog} {P : α → Prop} (h : Yields p P) (f : α → β) :
+    Yields (fun k => p (fun a => k (f a))) (fun b => ∃ a, P a ∧ b = f a) := by
+  intro k src ts
+  rcases h (fun a => k (f a)) src ts with ⟨a, ha, rest⟩ | h
+  · exact Or.inl ⟨f a, ⟨a, ha, rfl⟩, rest⟩
+  · exact Or.inr h
+
+/-- sequential composition of two primitives in continuation-passing style -/
+theorem Yields.bind {α β : Type} {p : (α → Prog) → Prog} {P : α → Prop} {q : α → (β → Prog) → Prog} {Q : β → Prop}
+    (hp : Yields p P) (hq : ∀ a, P a → Yields (q a) Q) : Yields (fun k => p (fun a => q a k)) Q := by
+  intro k src ts
+  rcases hp (fun a => q a k) src ts with ⟨a, ha, src1, u1, k1, t1, ov1, hne, hrun⟩ | h
+  · rcases hq a ha k src1 ts with ⟨b, hb, src2, u2, k2, t2, ov2, _, hrun2⟩ | ⟨e, he, hk⟩
+    · left
+      refine ⟨b, hb, src2, u1 ++ u2, k1 ++ k2, t1 ++ t2, ov1 || ov2, by simp [hne], ?_⟩
+      have h1 := hrun
+      rw [h1, hrun2, after_after0]
+    · right
+      have h1 := hrun
+      exact ⟨e, by rw [h1]; simpa [Out.after] using he, hk⟩
+  · exact Or.inr h
+
+/-- a group (never discarded) around a primitive whose result is handed on as a `Val` -/
+theorem Yields.group {α : Type} {p : (α → Prog) → Prog} {P : α → Prop} (h : Yields p P) (l : String) (s : Bool)
+    (enc : α → Val) :
+    Yields (fun k => Prog.group l s (p fun a => .ret (enc a)) (fun _ => false) (fun v => k v))
+      (fun v => ∃ a, P a ∧ v = enc a) := by
+  intro k src ts
+  rcases h (fun a => .ret (enc a)) src ts with ⟨a, ha, src1, u1, k1, t1, ov1, hne, hrun⟩ | ⟨e, he, hk⟩
+  · left
+    have h1 := hrun
+    refine ⟨enc a, ⟨a, ha, rfl⟩, src1, u1, k1, .opn l s :: t1 ++ [.cls false], ov1, hne, ?_⟩
+    simp only [Prog.run, h1]
+    cases u1 with
+    | nil => exact absurd rfl hne
+    | cons x xs => simp [Out.after, Out.ofRes]
+  · right
+    refine ⟨e, ?_, hk⟩
+    simp only [Prog.run]
+    have he' := he
+    split
+    · rename_i e' he2; rw [he'] at he2; cases he2; exact he'
+    · rename_i v hv; rw [he'] at hv; cases hv
+
 theorem yields_uintNoReject (max : UInt64) : Yields (uintNoReject max) (fun u => u ≤ max) := by
   intro k src ts
   simp only [uintNoReject, run_draw_group]
@@ -49,7 +102,7 @@ theorem yields_uintNoReject (max : UInt64) : Yields (uintNoReject max) (fun u =>
   | some r =>
     obtain ⟨u, src'⟩ := r
     left
-    refine ⟨if vu (uv u) > max then max else vu (uv u), ?_, src', _, _, _, _, rfl⟩
+    refine ⟨if vu (uv u) > max then max else vu (uv u), ?_, src', _, _, _, _, by simp, rfl⟩
     split
     · exact UInt64.le_refl _
     · rename_i hgt
@@ -71,17 +124,22 @@ theorem yields_uintUnbiased (max : UInt64) : ∀ fuel, Yields (fun k => uintUnbi
       by_cases hle : u ≤ max
       · left
         simp only [hle, if_true]
-        exact ⟨u, hle, src', _, _, _, _, rfl⟩
+        exact ⟨u, hle, src', _, _, _, _, by simp, rfl⟩
       · simp only [hle, if_false]
-        rcases ih k src' ts with ⟨a, ha, s2, u2, k2, t2, o2, heq⟩ | ⟨e, he, hk⟩
+        rcases ih k src' ts with ⟨a, ha, s2, u2, k2, t2, o2, hne2, heq⟩ | ⟨e, he, hk⟩
         · left
-          exact ⟨a, ha, s2, _, _, _, _, by rw [heq]; exact after_after0 _ _ _ _ _ _ _ _ _⟩
+          refine ⟨a, ha, s2, _, _, _, _, ?_, by rw [heq]; exact after_after0 _ _ _ _ _ _ _ _ _⟩ <;> simp
         · right
           exact ⟨e, by simpa using he, hk⟩
 
+/-- what `genUintNBiased` promises about its two flags: "left overflow" only with the value 0,
+    "right overflow" only with the value `max` -/
+def FlagsOK (lo hi : UInt64) (x : UInt64 × Bool × Bool) : Prop :=
+  (x.2.1 = true → x.1 = lo) ∧ (x.2.2 = true → x.1 = hi)
+
 theorem yields_uintBiasedLoop (max : UInt64) (n bitlen : Nat) : ∀ fuel,
     Yields (fun (k : UInt64 × Bool × Bool → Prog) => uintBiasedLoop max n bitlen (fun u l r => k (u, l, r)) fuel)
-      (fun x => x.1 ≤ max) := by
+      (fun x => x.1 ≤ max ∧ FlagsOK 0 max x) := by
   intro fuel
   induction fuel with
   | zero => intro k src ts; right; exact ⟨.fuel, by simp [uintBiasedLoop, Prog.run, Out.ofRes], Or.inr rfl⟩
@@ -96,22 +154,26 @@ theorem yields_uintBiasedLoop (max : UInt64) (n bitlen : Nat) : ∀ fuel,
       by_cases hb : bitlen > 64
       · left
         simp only [hb, if_true, UInt64.le_refl]
-        exact ⟨(max, _, _), UInt64.le_refl _, src', _, _, _, _, rfl⟩
+        refine ⟨(max, _, _), ⟨UInt64.le_refl _, ?_, ?_⟩, src', _, _, _, _, by simp, rfl⟩
+        · intro hl; simp only [Bool.and_eq_true, beq_iff_eq] at hl; exact hl.1
+        · intro _; rfl
       · simp only [hb, if_false]
         by_cases hle : u ≤ max
         · left
           simp only [hle, if_true]
-          exact ⟨(u, _, _), hle, src', _, _, _, _, rfl⟩
+          refine ⟨(u, _, _), ⟨hle, ?_, ?_⟩, src', _, _, _, _, by simp, rfl⟩
+          · intro hl; simp only [Bool.and_eq_true, beq_iff_eq] at hl; exact hl.1
+          · intro hr; simp only [Bool.and_eq_true, beq_iff_eq] at hr; exact hr.1
         · simp only [hle, if_false]
-          rcases ih k src' ts with ⟨a, ha, s2, u2, k2, t2, o2, heq⟩ | ⟨e, he, hk⟩
+          rcases ih k src' ts with ⟨a, ha, s2, u2, k2, t2, o2, hne2, heq⟩ | ⟨e, he, hk⟩
           · left
-            exact ⟨a, ha, s2, _, _, _, _, by rw [heq]; exact after_after0 _ _ _ _ _ _ _ _ _⟩
+            refine ⟨a, ha, s2, _, _, _, _, ?_, by rw [heq]; exact after_after0 _ _ _ _ _ _ _ _ _⟩ <;> simp
           · right
             exact ⟨e, by simpa using he, hk⟩
 
 theorem yields_uintBiased (ft : FT) (max : UInt64) (fuel : Nat) :
     Yields (fun (k : UInt64 × Bool × Bool → Prog) => uintBiased ft max fuel (fun u l r => k (u, l, r)))
-      (fun x => x.1 ≤ max) := by
+      (fun x => x.1 ≤ max ∧ FlagsOK 0 max x) := by
   intro k src ts
   simp only [uintBiased, run_draw_group]
   cases h : src.next 53 with
@@ -119,45 +181,57 @@ theorem yields_uintBiased (ft : FT) (max : UInt64) (fuel : Nat) :
   | some r =>
     obtain ⟨w, src'⟩ := r
     simp only [Bool.false_eq_true, if_false]
-    rcases yields_uintBiasedLoop max _ _ fuel k src' ts with ⟨a, ha, s2, u2, k2, t2, o2, heq⟩ | ⟨e, he, hk⟩
+    rcases yields_uintBiasedLoop max _ _ fuel k src' ts with ⟨a, ha, s2, u2, k2, t2, o2, hne2, heq⟩ | ⟨e, he, hk⟩
     · left
-      exact ⟨a, ha, s2, _, _, _, _, by rw [heq]; exact after_after0 _ _ _ _ _ _ _ _ _⟩
+      refine ⟨a, ha, s2, _, _, _, _, ?_, by rw [heq]; exact after_after0 _ _ _ _ _ _ _ _ _⟩ <;> simp
     · right
       exact ⟨e, by simpa using he, hk⟩
 
-/-- `genUintN`, biased or not: the value is `≤ max` -/
-theorem yields_uintN (ft : FT) (max : UInt64) (bias : Bool) (fuel : Nat) :
+/-- `genUintN`, biased or not: the value is `≤ max`, the flags only at the ends -/
+theorem yields_uintN_flags (ft : FT) (max : UInt64) (bias : Bool) (fuel : Nat) :
     Yields (fun (k : UInt64 × Bool × Bool → Prog) => uintN ft max bias fuel (fun u l r => k (u, l, r)))
-      (fun x => x.1 ≤ max) := by
+      (fun x => x.1 ≤ max ∧ FlagsOK 0 max x) := by
   intro k src ts
   cases bias with
   | true => simpa [uintN] using yields_uintBiased ft max fuel k src ts
   | false =>
     simp only [uintN, Bool.false_eq_true, if_false]
     rcases yields_uintUnbiased max fuel (fun u => k (u, false, false)) src ts with ⟨a, ha, rest⟩ | h
-    · left; exact ⟨(a, false, false), ha, rest⟩
+    · left; exact ⟨(a, false, false), ⟨ha, by simp [FlagsOK]⟩, rest⟩
     · right; exact h
 
-/-- `genUintRange`: for `min ≤ max` the value is in `[min, max]`, for every bitstream -/
-theorem yields_uintRange (ft : FT) (min max : UInt64) (bias : Bool) (fuel : Nat) (hmm : min ≤ max) :
+theorem yields_uintN (ft : FT) (max : UInt64) (bias : Bool) (fuel : Nat) :
+    Yields (fun (k : UInt64 × Bool × Bool → Prog) => uintN ft max bias fuel (fun u l r => k (u, l, r)))
+      (fun x => x.1 ≤ max) := (yields_uintN_flags ft max bias fuel).mono fun _ h => h.1
+
+/-- `genUintRange`: for `min ≤ max` the value is in `[min, max]`, for every bitstream; a raised
+    flag means the value is that end of the range -/
+theorem yields_uintRange_flags (ft : FT) (min max : UInt64) (bias : Bool) (fuel : Nat) (hmm : min ≤ max) :
     Yields (fun (k : UInt64 × Bool × Bool → Prog) => uintRange ft min max bias fuel (fun u l r => k (u, l, r)))
-      (fun x => min ≤ x.1 ∧ x.1 ≤ max) := by
+      (fun x => (min ≤ x.1 ∧ x.1 ≤ max) ∧ FlagsOK min max x) := by
   intro k src ts
   have hng : ¬ min > max := by rw [gt_iff_lt, UInt64.lt_iff_toNat_lt]; rw [UInt64.le_iff_toNat_le] at hmm; omega
   simp only [uintRange, hng, if_false]
-  rcases yields_uintN ft (max - min) bias fuel (fun x => k (min + x.1, x.2.1, x.2.2)) src ts with ⟨a, ha, rest⟩ | h
+  rcases yields_uintN_flags ft (max - min) bias fuel (fun x => k (min + x.1, x.2.1, x.2.2)) src ts with ⟨a, ⟨ha, hfl, hfr⟩, rest⟩ | h
   · left
-    refine ⟨(min + a.1, a.2.1, a.2.2), ?_, rest⟩
-    have h1 : (max - min).toNat = max.toNat - min.toNat := UInt64.toNat_sub_of_le _ _ hmm
-    have h2 : a.1.toNat ≤ max.toNat - min.toNat := by rw [← h1]; exact UInt64.le_iff_toNat_le.mp ha
-    have hmm' := UInt64.le_iff_toNat_le.mp hmm
-    have hlt : max.toNat < 2 ^ 64 := max.toNat_lt
-    have h3 : (min + a.1).toNat = min.toNat + a.1.toNat := by
-      rw [UInt64.toNat_add]; apply Nat.mod_eq_of_lt; omega
-    constructor
-    · rw [UInt64.le_iff_toNat_le, h3]; omega
-    · rw [UInt64.le_iff_toNat_le, h3]; omega
+    refine ⟨(min + a.1, a.2.1, a.2.2), ⟨?_, ?_, ?_⟩, rest⟩
+    · have h1 : (max - min).toNat = max.toNat - min.toNat := UInt64.toNat_sub_of_le _ _ hmm
+      have h2 : a.1.toNat ≤ max.toNat - min.toNat := by rw [← h1]; exact UInt64.le_iff_toNat_le.mp ha
+      have hmm' := UInt64.le_iff_toNat_le.mp hmm
+      have hlt : max.toNat < 2 ^ 64 := max.toNat_lt
+      have h3 : (min + a.1).toNat = min.toNat + a.1.toNat := by
+        rw [UInt64.toNat_add]; apply Nat.mod_eq_of_lt; omega
+      constructor
+      · rw [UInt64.le_iff_toNat_le, h3]; omega
+      · rw [UInt64.le_iff_toNat_le, h3]; omega
+    · intro hl; have := hfl hl; dsimp only at this ⊢; rw [this]; simp
+    · intro hr; have := hfr hr; dsimp only at this ⊢; rw [this]
+      apply UInt64.eq_of_toBitVec_eq; simp only [UInt64.toBitVec_add, UInt64.toBitVec_sub]; bv_omega
   · right; exact h
+
+theorem yields_uintRange (ft : FT) (min max : UInt64) (bias : Bool) (fuel : Nat) (hmm : min ≤ max) :
+    Yields (fun (k : UInt64 × Bool × Bool → Prog) => uintRange ft min max bias fuel (fun u l r => k (u, l, r)))
+      (fun x => min ≤ x.1 ∧ x.1 ≤ max) := (yields_uintRange_flags ft min max bias fuel hmm).mono fun _ h => h.1
 
 /-- `genUintRange` for arbitrary bounds: it continues with some value, or ends with an error -/
 theorem yields_uintRange_any (ft : FT) (min max : UInt64) (bias : Bool) (fuel : Nat)
@@ -166,8 +240,8 @@ theorem yields_uintRange_any (ft : FT) (min max : UInt64) (bias : Bool) (fuel : 
       (uintRange ft min max bias fuel (fun u l r => k (u, l, r))).run src ts = ((k a).run src' ts).after used kept toks [] ov) ∨
     (∃ e, ((uintRange ft min max bias fuel (fun u l r => k (u, l, r))).run src ts).res = .error e) := by
   by_cases hmm : min ≤ max
-  · rcases yields_uintRange ft min max bias fuel hmm k src ts with ⟨a, _, rest⟩ | ⟨e, he, _⟩
-    · exact Or.inl ⟨a, rest⟩
+  · rcases yields_uintRange ft min max bias fuel hmm k src ts with ⟨a, _, s', u', k', t', o', _, hr⟩ | ⟨e, he, _⟩
+    · exact Or.inl ⟨a, s', u', k', t', o', hr⟩
     · exact Or.inr ⟨e, he⟩
   · right
     have hgt : min > max := by rw [gt_iff_lt, UInt64.lt_iff_toNat_lt]; rw [UInt64.le_iff_toNat_le] at hmm; omega
